@@ -90,6 +90,9 @@ func (w *Proxy) newH2Upstream(host string) *peers.H2Upstream {
 
 func (w *Proxy) h2ReplyBuilder(u *peers.H2Upstream, r *peers.ReqRec, up *peers.UpRec) *peers.H1Msg {
 	m := &peers.H1Msg{Status: 200}
+	if v := r.Extra["resp_status"]; v != "" {
+		fmt.Sscan(v, &m.Status)
+	}
 	m.Headers = []peers.KV{{K: "x-tok", V: r.Token}, {K: "x-host", V: u.Host}, {K: "content-type", V: "application/x-verif"}}
 	if v := r.Extra["resp_hdrs"]; v != "" {
 		for _, kv := range strings.Split(v, "\n") {
@@ -104,8 +107,8 @@ func (w *Proxy) h2ReplyBuilder(u *peers.H2Upstream, r *peers.ReqRec, up *peers.U
 	for len(body) < len(r.Token)+n {
 		body = append(body, byte('A'+(len(body)*7+len(r.Token))%26))
 	}
-	if n < 0 {
-		body = nil
+	if n < 0 || m.Status == 204 {
+		body = nil // (a 204 response has no body)
 	}
 	m.Body = body
 	return m
@@ -120,7 +123,7 @@ func (w *Proxy) setupH2Client(ci int, reqIdxP *int) {
 	reqIdx := *reqIdxP
 	defer func() { *reqIdxP = reqIdx }()
 	opts := drawH2Opts
-	if p.ShutdownMs > 0 {
+	if p.ShutdownMs > 0 || p.Faults {
 		opts = fastH2Opts
 	}
 	cl := peers.NewH2Client(s, w.H, fmt.Sprintf("cl%d", ci), opts(ch, fmt.Sprintf("h2cl%d", ci)))
@@ -138,6 +141,12 @@ func (w *Proxy) setupH2Client(ci int, reqIdxP *int) {
 		r.Script = []peers.Action{{Kind: "reply", Delay: pickFrom(ch, "work", "delay18", []time.Duration{0, time.Millisecond, 20 * time.Millisecond})}}
 		if p.ShutdownMs > 0 {
 			r.Script = []peers.Action{w.drawAction(ch)}
+		}
+		if p.Faults {
+			r.Script = nil
+			for a, n := 0, min(1+p.NumRetries, 4); a < n; a++ {
+				r.Script = append(r.Script, w.drawAction(ch))
+			}
 		}
 		m := &peers.H1Msg{IsReq: true}
 		m.Method = pickFrom(ch, "work", "method", []string{"POST", "GET", "PUT"})
@@ -313,4 +322,68 @@ func (w *Proxy) h2ends() []*peers.H2End {
 		es = append(es, u.H2End)
 	}
 	return es
+}
+
+
+// ---- C01 across HTTP versions: an HTTP/1 listener in front of an HTTP/2 cluster and the reverse ----
+
+func crossIgnore(k string) bool {
+	switch k {
+	case "host", "content-length", "transfer-encoding", "connection", "keep-alive", "date", "server", "accept-encoding",
+		"x-host", "x-att", "x-mosn-host", "x-mosn-method", "x-mosn-path", "x-mosn-querystring", "x-mosn-original-path":
+		return true
+	}
+	return false
+}
+
+func (w *Proxy) checkCross() {
+	s := w.S
+	for _, r := range w.H.Reqs {
+		if r.Dropped || r.SentAt == 0 || r.HReq == nil {
+			continue
+		}
+		w.Stats["cross_requests_judged"]++
+		if len(r.Upstream) != 1 || r.Upstream[0].H == nil {
+			s.Violate("C01", "cross_not_forwarded_once", "req#%d (%s listener, other HTTP version upstream) reached upstreams %d times", r.Idx, r.Proto, len(r.Upstream))
+			continue
+		}
+		up := r.Upstream[0]
+		if up.H.Method != r.HReq.Method {
+			s.Violate("C01", "cross_method_changed", "req#%d: method %q forwarded as %q", r.Idx, r.HReq.Method, up.H.Method)
+		}
+		if up.H.Target != r.HReq.Target {
+			s.Violate("C01", "cross_target_changed:"+r.HReq.Target, "req#%d (%s): request-target %q forwarded as %q", r.Idx, w.P.Proto, r.HReq.Target, up.H.Target)
+		}
+		if !bytes.Equal(up.H.Body, r.HReq.Body) {
+			s.Violate("C01", "cross_request_body_changed", "req#%d: body of %d bytes forwarded as %d bytes (first diff at %d)", r.Idx, len(r.HReq.Body), len(up.H.Body), firstDiff(up.H.Body, r.HReq.Body))
+		}
+		if d := sameKVs(r.HReq.Headers, up.H.Headers, crossIgnore); d != "" {
+			s.Violate("C01", "cross_request_header_changed", "req#%d (%s): %s", r.Idx, w.P.Proto, d)
+		}
+		if len(r.Replies) != 1 || r.Replies[0].H == nil {
+			s.Violate("C01", "cross_response_missing", "req#%d: %d responses delivered", r.Idx, len(r.Replies))
+			continue
+		}
+		rep := r.Replies[0].H
+		var want *peers.H1Msg
+		if _, upP, _ := crossProto(w.P.Proto); upP == "http2" {
+			want = w.h2ReplyBuilder(&peers.H2Upstream{Host: up.Host}, r, up)
+		} else if len(up.Sent) > 0 {
+			ps := peers.H1Parser{}
+			ps.Feed(up.Sent[0])
+			want = ps.Next(true)
+		}
+		if want == nil {
+			continue
+		}
+		if rep.Status != want.Status {
+			s.Violate("C01", "cross_status_changed", "req#%d: status %d delivered as %d", r.Idx, want.Status, rep.Status)
+		}
+		if !bytes.Equal(rep.Body, want.Body) {
+			s.Violate("C01", "cross_response_body_changed", "req#%d: body of %d bytes delivered as %d bytes (first diff at %d)", r.Idx, len(want.Body), len(rep.Body), firstDiff(rep.Body, want.Body))
+		}
+		if d := sameKVs(want.Headers, rep.Headers, crossIgnore); d != "" {
+			s.Violate("C01", "cross_response_header_changed", "req#%d (%s): %s (delivered header list: %v)", r.Idx, w.P.Proto, d, rep.Headers)
+		}
+	}
 }
